@@ -237,7 +237,44 @@ fn strat(id: CodecId, max: usize) -> BoxedStrategy<Case> {
         .boxed()
 }
 
+/// text of a user-defined soft-masked alphabet (see `custom::Soft`): mask = lower case, unmask = upper
+/// case, the gap stays; position-wise, length-preserving
+fn user_maskable<const W: u8>(text: &String) -> PResult {
+    use crate::custom::Soft;
+    let s: Seq<Soft<W>> = match Seq::try_from(text.as_str()) {
+        Ok(s) => s,
+        Err(e) => fail!("harness", "user-defined soft-masked text {text:?} refused: {e:?}"),
+    };
+    let lower = text.to_ascii_lowercase();
+    let upper = text.to_ascii_uppercase();
+    let tm = no_panic(&format!("user_mask_panic/{W}"), "to_mask", || s.to_mask())?;
+    ensure_eq!(tm.to_string(), lower, format!("user_mask/{W}"), "to_mask of the user-defined {W}-bit soft-masked sequence {text}");
+    let tu = no_panic(&format!("user_mask_panic/{W}"), "to_unmask", || s.to_unmask())?;
+    ensure_eq!(tu.to_string(), upper, format!("user_unmask/{W}"), "to_unmask of the user-defined {W}-bit soft-masked sequence {text}");
+    let mut x = s.clone();
+    x.mask();
+    x.unmask();
+    ensure_eq!(x.to_string(), upper, format!("user_unmask_after_mask/{W}"), "unmask(mask(x)) of {text}");
+    ensure_eq!(s.to_string(), *text, format!("user_receiver/{W}"), "receiver changed by to_mask/to_unmask");
+    Ok(Pass::new(text.len() * W as usize > 64 && lower != upper))
+}
+
+fn user_maskable_subs(ctx: &mut Ctx) {
+    let cases = ctx.cases(400, 10);
+    ctx.forall("user_maskable/5", cases, "[ACGTNRYacgtnry-]{0,120}", user_maskable::<5>);
+    ctx.forall("user_maskable/4", cases, "[ACGTNacgtn-]{0,120}", user_maskable::<4>);
+}
+
 pub fn run(ctx: &mut Ctx) {
+    // Which soft-masked alphabet of a width is used first in the process is part of the history
+    // (the driver runs one process per order): user-defined ones first, or the built-in ones first.
+    if ctx.order == 1 {
+        if matches!(ctx.mode, Mode::Replay { .. }) {
+            let _ = user_maskable::<5>(&"ACGTNRYacgtnry-".to_string());
+            let _ = user_maskable::<4>(&"ACGTNacgtn-".to_string());
+        }
+        user_maskable_subs(ctx);
+    }
     ctx.each("masked_iupac_symbols", CodecId::MIupac.model().codes(), mi_symbol);
     ctx.each("masked_dna_patterns", (0..16u8).collect::<Vec<u8>>(), md_symbol);
     let max = ctx.pick(200, 2000);
@@ -277,6 +314,9 @@ pub fn run(ctx: &mut Ctx) {
         ];
         let st = (proptest::collection::vec(word, 0..=5), any::<u16>()).prop_map(move |(words, count)| RawCase { codec: id, words, count });
         ctx.forall(&format!("raw_images/{}", id.name()), cases, st, raw_dispatch);
+    }
+    if ctx.order != 1 {
+        user_maskable_subs(ctx);
     }
     ctx.require_class("alt_pattern_in_sequence");
     ctx.require_class("alt_pattern");
